@@ -83,39 +83,65 @@ def off_duty(ctx, P, views, iters):
         cls, fn = view.method("take_servers_off_duty")
         for lit, name in (("False", "non-preemptive"), ("'resume'", "preemptive")):
             w = Walker(P, view, keep=lambda e: e.kind == "guard" or (e.kind == "call" and e.d["meth"] in ("kill_server", "interrupt_service", "append")) or
-                       (e.kind == "assign" and e.d["target"].endswith(".offduty")) or e.kind == "iter",
+                       (e.kind == "assign" and e.d["target"].endswith(".offduty")) or e.kind in ("iter", "loopexit"),
                        track=lambda t, f: True, inline=lambda ev: False, literal_args={"preemption": lit}, loop_iters=iters)
             for st in w.paths_of(cls, fn):
                 if st.status == "raise":
                     continue
                 evs = st.events
                 ob.ok("%s:%s" % (view.name, name), "%s.take_servers_off_duty[%s]: %s" % (view.name, name, " -> ".join(x.text[:40] for x in evs if x.kind != "iter")))
-                busy_true = [i for i, e in enumerate(evs) if e.kind == "guard" and e.pol and "busy" in e.text]
-                busy_false = [i for i, e in enumerate(evs) if e.kind == "guard" and not e.pol and "busy" in e.text]
                 reason = None
+                calls = [(i, e) for i, e in enumerate(evs) if e.kind == "call"]
                 if name == "non-preemptive":
-                    for i in busy_true:
-                        nxt = evs[i + 1] if i + 1 < len(evs) else None
-                        if not (nxt is not None and nxt.kind == "assign" and nxt.d["value"] == "True"):
-                            reason, msg = "busy-server-not-marked", "a busy server must finish its customer as overtime: it is marked offduty, not dropped"
-                        if nxt is not None and nxt.kind == "call" and nxt.d["meth"] in ("append", "kill_server"):
-                            reason, msg = "busy-server-killed", "non-pre-emptive schedule: a busy server must not be killed at the shift end"
-                    for i in busy_false:
-                        nxt = evs[i + 1] if i + 1 < len(evs) else None
-                        if not (nxt is not None and nxt.kind == "call" and nxt.d["meth"] == "append" and nxt.d["recv"] == "to_delete"):
-                            reason, msg = "idle-server-kept", "an idle server of the old shift must be deleted"
-                    for i, e in enumerate(evs):
-                        if e.kind == "call" and e.d["meth"] == "append" and e.d["recv"] == "to_delete":
+                    # every server of the old shift is either (tested busy and marked offduty) or (tested idle and put on the delete list, which is then killed)
+                    dellists = set()
+                    for i, e in calls:
+                        if e.d["meth"] == "append" and "." not in e.d["recv"]:
                             x = e.d["args"][0] if e.d["args"] else "?"
+                            dellists.add(e.d["recv"])
                             if rules.path_condition(evs, i).get(("truth", x + ".busy")) is not False:
                                 reason, msg = "busy-server-killed", "non-pre-emptive schedule: only servers tested idle (`not srvr.busy`) may be deleted at the shift end; a busy one finishes as overtime"
-                    if any(e.kind == "call" and e.d["meth"] == "interrupt_service" for e in evs):
+                    for i, e in enumerate(evs):
+                        if e.kind == "assign" and e.d["target"].endswith(".offduty"):
+                            x = e.d["target"][: -len(".offduty")]
+                            if e.d["value"] != "True" or rules.path_condition(evs, i).get(("truth", x + ".busy")) is not True:
+                                reason, msg = "offduty-mark", "only a busy server is marked offduty (True): it finishes its customer as overtime"
+                    # per loop iteration over the servers: the branch taken must do one of the two
+                    it_idx = [i for i, e in enumerate(evs) if e.kind == "iter" and isinstance(e.node, ast.For) and unparse(e.node.iter) == "self.servers"]
+                    for k, i in enumerate(it_idx):
+                        j = it_idx[k + 1] if k + 1 < len(it_idx) else len(evs)
+                        seg = evs[i + 1:j]
+                        var_ = unparse(evs[i].node.target)
+                        bf = rules.path_condition(seg).get(("truth", var_ + ".busy"))
+                        if bf is None:
+                            reason, msg = "busy-server-not-marked", "each server of the old shift must be tested busy/idle"
+                            continue
+                        marked = any(x.kind == "assign" and x.d["target"].endswith(".offduty") for x in seg)
+                        listed = any(x.kind == "call" and x.d["meth"] == "append" for x in seg)
+                        if bf and not marked:
+                            reason, msg = "busy-server-not-marked", "a busy server must finish its customer as overtime: it is marked offduty, not dropped"
+                        if not bf and not listed:
+                            reason, msg = "idle-server-kept", "an idle server of the old shift must be deleted"
+                    if any(e.d["meth"] == "interrupt_service" for i, e in calls):
                         reason, msg = "interrupt-without-preemption", "non-pre-emptive schedule: services in progress must not be interrupted"
+                    kills = [e for e in evs if e.kind == "iter" and isinstance(e.node, ast.For) and unparse(e.node.iter) in dellists]
+                    if dellists and not any(isinstance(e.node, ast.For) and unparse(e.node.iter) in dellists for e in evs if e.kind in ("iter", "loopexit")):
+                        reason, msg = "idle-server-kept", "the servers put on the delete list must be killed"
                 else:
-                    incust = [i for i, e in enumerate(evs) if e.kind == "guard" and e.pol and ".cust" in e.text]
-                    for i in incust:
-                        nxt = evs[i + 1] if i + 1 < len(evs) else None
-                        if not (nxt is not None and nxt.kind == "call" and nxt.d["meth"] == "interrupt_service" and nxt.d["args"] and nxt.d["args"][0].endswith(".cust")):
+                    it_idx = [i for i, e in enumerate(evs) if e.kind == "iter" and isinstance(e.node, ast.For) and unparse(e.node.iter) == "self.servers"]
+                    for k, i in enumerate(it_idx):
+                        j = it_idx[k + 1] if k + 1 < len(it_idx) else len(evs)
+                        seg = evs[i + 1:j]
+                        hascust = [g for g in seg if g.kind == "guard" and ".cust" in g.text]
+                        ints = [x for x in seg if x.kind == "call" and x.d["meth"] == "interrupt_service"]
+                        var = unparse(evs[i].node.target)
+                        if hascust:
+                            f = {}
+                            guards.assume(hascust[0].d["formula"], hascust[0].pol, f)
+                            incust = f.get(("truth", var + ".cust"))
+                            if incust is True and not (ints and ints[0].d["args"] == [var + ".cust"]):
+                                reason, msg = "busy-customer-not-interrupted", "pre-emptive schedule: the customer of every busy server is interrupted exactly at the shift end"
+                        elif not ints:
                             reason, msg = "busy-customer-not-interrupted", "pre-emptive schedule: the customer of every busy server is interrupted exactly at the shift end"
                 if reason and (cls.name, reason) not in done:
                     done.add((cls.name, reason))
